@@ -191,6 +191,9 @@ func c18Ranges() []c18Range {
 		{Start: c18T0 - 30_000, End: c18T0 + 20*60_000 + 30_000, Step: 5_000},
 		// D: step 15 s = scrape interval, T0+7s … (81 steps, never on a sample timestamp of the regular sets)
 		{Start: c18T0 + 7_000, End: c18T0 + 7_000 + 80*15_000, Step: 15_000},
+		// E: B's steps with an end that is not on the step grid (20 s after the last step): the store reads one more sample,
+		// which belongs to no step
+		{Start: c18T0 + 4*60_000 + 7_300, End: c18T0 + 4*60_000 + 7_300 + 15*47_000 + 20_000, Step: 47_000},
 	}
 }
 
@@ -702,6 +705,28 @@ type c18ToolError struct{ msg string }
 type c18Server struct {
 	url string
 	hc  *http.Client
+	cur c18Case // the PromQL query in flight (Expr, Mode, T / Start, End, Step), for c18ServerDied
+}
+
+// c18ServerDied: the server stopped answering (no /ping any more) while the query q was in flight. Not a tool error: a
+// query that kills the server is a wrong answer. Which of the queries in flight killed it is decided by lib/checks/c18.py,
+// which replays every candidate alone against a fresh server.
+type c18ServerDied struct {
+	srv *c18Server
+	q   c18Case
+	err string
+}
+
+func (s *c18Server) alive() bool {
+	hc := &http.Client{Timeout: 2 * time.Second}
+	for i := 0; i < 8; i++ {
+		if resp, err := hc.Get(s.url + "/ping"); err == nil {
+			resp.Body.Close()
+			return true
+		}
+		time.Sleep(500 * time.Millisecond)
+	}
+	return false
 }
 
 func c18Fatal(format string, a ...any) {
@@ -739,6 +764,9 @@ func (s *c18Server) do(method, path string, q url.Values, body []byte, hdr map[s
 			continue
 		}
 		return resp.StatusCode, b
+	}
+	if strings.HasPrefix(path, "/api/v1/query") && !s.alive() {
+		panic(c18ServerDied{srv: s, q: s.cur, err: fmt.Sprint(lastErr)})
 	}
 	c18Fatal("HTTP %s %s: %v", method, path, lastErr)
 	return 0, nil
@@ -899,11 +927,13 @@ func c18ParseServer(st int, body []byte) *c18Answer {
 }
 
 func (s *c18Server) instant(db, expr string, t int64) *c18Answer {
+	s.cur = c18Case{Expr: expr, Mode: "instant", T: t}
 	st, b := s.do("GET", "/api/v1/query", url.Values{"db": {db}, "query": {expr}, "time": {c18Sec(t)}}, nil, nil)
 	return c18ParseServer(st, b)
 }
 
 func (s *c18Server) rng(db, expr string, rq c18Range) *c18Answer {
+	s.cur = c18Case{Expr: expr, Mode: "range", Start: rq.Start, End: rq.End, Step: rq.Step}
 	st, b := s.do("GET", "/api/v1/query_range", url.Values{"db": {db}, "query": {expr}, "start": {c18Sec(rq.Start)},
 		"end": {c18Sec(rq.End)}, "step": {c18Sec(rq.Step)}}, nil, nil)
 	return c18ParseServer(st, b)
@@ -1477,8 +1507,36 @@ func (r *c18Runner) upstreamError(expr, msg string) {
 	}
 }
 
+// c18Guard runs f and returns the c18ServerDied it panicked with, if any.
+func c18Guard(f func()) (died *c18ServerDied) {
+	defer func() {
+		if p := recover(); p != nil {
+			if d, ok := p.(c18ServerDied); ok {
+				died = &d
+				return
+			}
+			panic(p)
+		}
+	}()
+	f()
+	return nil
+}
+
 func c18RunReplay(rep *kit.Report, def, seg *c18Server) {
 	var c c18Case
+	if d := c18Guard(func() { c = c18RunReplay1(rep, def, seg) }); d != nil {
+		l := c18LayDefault
+		if d.srv == seg {
+			l = c.Layout
+		}
+		key := fmt.Sprintf("expr=%s | set=%s | layout=%s | %s", d.q.Expr, c.Set.Name, l, d.q.Mode)
+		fmt.Printf("the server died while answering %s\n", key)
+		rep.Violation("server_died_during_query", key, "the server process stopped answering (/ping) while this query was in flight "+
+			"(out of memory under the address-space cap of lib/checks/c18.py, or a crash): "+d.err, c)
+	}
+}
+
+func c18RunReplay1(rep *kit.Report, def, seg *c18Server) (c c18Case) {
 	if err := kit.LoadReplay(&c); err != nil {
 		c18Fatal("replay: %v", err)
 	}
@@ -1526,7 +1584,7 @@ func c18RunReplay(rep *kit.Report, def, seg *c18Server) {
 			if !c18Unsupported(got) {
 				r.report(c.Expr, pe, c.Mode, rq.Start, rq, "server_error", got.Err, want, got)
 			}
-			return
+			return c
 		}
 		if c.Mode == "range_vs_instants" {
 			seq := &c18Answer{Series: map[string][]c18Point{}}
@@ -1540,12 +1598,13 @@ func c18RunReplay(rep *kit.Report, def, seg *c18Server) {
 			if cls, diff, bt := r.diffRange(pe, rq, seq, got); cls != "" {
 				r.report(c.Expr, pe, "range_vs_instants", bt, rq, cls, diff, seq, got)
 			}
-			return
+			return c
 		}
 		if cls, diff, bt := r.diffRange(pe, rq, want, got); cls != "" {
 			r.report(c.Expr, pe, "range", bt, rq, cls, diff, want, got)
 		}
 	}
+	return c
 }
 
 type c18Work struct {
@@ -1670,7 +1729,7 @@ func TestVerifC18(t *testing.T) {
 	// grammar on the default layout
 	var work []c18Work
 	n := 0
-	for si := range sets {
+	addSeg := func(si int) {
 		for _, l := range layouts {
 			for _, e := range raw {
 				if kit.Mine(n) {
@@ -1679,12 +1738,25 @@ func TestVerifC18(t *testing.T) {
 				n++
 			}
 		}
+	}
+	addDef := func(si int) {
 		for _, e := range exprs {
 			if kit.Mine(n) && os.Getenv("VERIF_C18_SKIP_DEFAULT") == "" { // development: storage layouts only
 				work = append(work, c18Work{si, c18LayDefault, e})
 			}
 			n++
 		}
+	}
+	for si := range sets {
+		if si == len(sets)-1 && len(sets) > 1 {
+			// last set: the big default share first, so that whatever ends the run early (deadline, a server killed by a
+			// query on a storage layout) costs as little as possible
+			addDef(si)
+			addSeg(si)
+			continue
+		}
+		addSeg(si)
+		addDef(si)
 	}
 	refs := map[int]*c18Ref{}
 	runners := map[string]*c18Runner{}
@@ -1706,7 +1778,17 @@ func TestVerifC18(t *testing.T) {
 			}
 			runners[key] = r
 		}
-		r.runExpr(w.expr)
+		if d := c18Guard(func() { r.runExpr(w.expr) }); d != nil {
+			c := d.q
+			c.Set, c.Layout = *r.set, c18LayDefault
+			if d.srv == r.srv {
+				c.Layout = r.layout
+			}
+			rep.Violation("server_unreachable_candidate", fmt.Sprintf("expr=%s | set=%s | layout=%s | %s", c.Expr, c.Set.Name, c.Layout, c.Mode),
+				"the server stopped answering while this query was in flight: "+d.err, c)
+			rep.Cut("a ts-server died during the run; the rest of this worker's share was not evaluated")
+			return
+		}
 		rep.Count("expressions_on_"+w.layout, 1)
 		if nSampled[key] < 1 && kit.Shard() < 4 {
 			nSampled[key]++
